@@ -5,7 +5,7 @@ from fractions import Fraction
 
 import core
 from corr.bloom import strategy
-from search.common import drive, keys_pool
+from search.common import drive, geometry_twin, keys_pool
 
 
 def gen(rng):
@@ -63,6 +63,13 @@ def check(case):
                 return "join with a foreign type did not raise TypeError"
             return None
         cls = P.CountingBloomFilter if kind == "cbf" else P.BloomFilter
+        # the second operand may be built from OTHER nominal parameters: with the same bits and hashes it is a
+        # compatible operand, with the same bits but another number of hashes it is not
+        b_params = (case["est"] + case["est2"], case["fpr"])
+        if kind == "bloom" and not case["est2"] and len(case["a"]) % 3 != 2:
+            tw = geometry_twin(case["est"], case["fpr"], same_hashes=(len(case["a"]) % 3 == 0))
+            if tw:
+                b_params = tw
         try:
             a = cls(est_elements=case["est"], false_positive_rate=case["fpr"], hash_function=fn)
             if kind == "bloom-ondisk2":  # both operands on disk
@@ -70,7 +77,7 @@ def check(case):
             if kind in ("bloom-ondisk", "bloom-ondisk2"):
                 b = P.BloomFilterOnDisk(os.path.join(tmp, "b.blm"), est_elements=case["est"] + case["est2"], false_positive_rate=case["fpr"], hash_function=fn2)
             else:
-                b = cls(est_elements=case["est"] + case["est2"], false_positive_rate=case["fpr"], hash_function=fn2)
+                b = cls(est_elements=b_params[0], false_positive_rate=b_params[1], hash_function=fn2)
         except P.exceptions.InitializationError:
             return None
         try:
